@@ -86,7 +86,7 @@ def gen(rng):
             last = wm["files"][p][-1]
             last[-1] = last[-1].rstrip("\n") + " // no newline at end"
     for p in sorted(wm["extra"]):
-        if p.startswith("proj/src/c") and rng.random() < 0.12:
+        if p.startswith("proj/src/c") and wm["extra"][p]["t"] == "f" and rng.random() < 0.12:
             wm["extra"][p]["data"] = b"\xef\xbb\xbf" + wm["extra"][p]["data"]
             tags.add("bom_file")
     # bystanders that must not change
@@ -99,7 +99,8 @@ def gen(rng):
 
 
 def source_paths(wm):
-    return sorted(set(wm["files"]) | {p for p in wm["extra"] if p.startswith("proj/src/") and p.endswith(".rs")})
+    return sorted(set(wm["files"]) | {p for p, e in wm["extra"].items() if p.startswith("proj/src/") and p.endswith(".rs")
+                                      and e["t"] == "f"})
 
 
 def evaluate(wm, knobs, plan, ctx):
